@@ -1,4 +1,10 @@
-"""C11 - handler error policy (change handlers; daemons, timers, activities: see Execution).
+"""C11 - handler error policy.
+
+(F) Execution.tla: the reference of one invocation (timeout / retries limits before the attempt, look-ahead for temporary and
+arbitrary errors, error modes, backoff) with its laws checked by TLC over the whole bounded input space (MC_Execution);
+the REAL execution.execute_handler_once is run on configurations x states (incl. runtimes beyond 24 h) x handler
+behaviours, for an activity handler and a change handler, in exact virtual time; every record is judged by
+Execution!ClassifyC11 in TLC.
 
 (A) Handling.tla model-checked exhaustively on the configurations named below (plus negative configurations that must
 fail, to show the invariants are not vacuous); (B) seeded random closed-loop scenarios of the profile(s) below run on
@@ -13,7 +19,93 @@ NEGATIVES = dict(x.split(':') for x in "-".split(',') if ':' in x)
 FEATURES = set("retry,failure".split(','))
 
 
+def execution_records(quick: bool, seed: int):
+    import datetime
+    import itertools
+    import logging
+    import random
+    import kopf
+    from kopf._cogs.structs import bodies, diffs, ephemera, patches, references
+    from kopf._core.actions import execution, progression
+    from kopf._core.engines import indexing
+    from kopf._core.intents import causes, handlers as khandlers
+    from sim.opsim import Sim
+    rnd = random.Random(seed)
+    U = -1
+    confs = [dict(timeout=t, retries=n, backoff=b, mode=m) for t, n, b, m in itertools.product(
+        [U, 5, 60, 100000], [U, 1, 3], [U, 2, 10], ['', 'temporary', 'permanent', 'ignored'])]
+    states = [dict(runtime=rt, retries=n) for rt, n in itertools.product([0, 4, 5, 50, 59, 60, 86400 + 2, 90000, 100000, 200000], [0, 1, 2, 3])]
+    ress = [dict(kind=k, delay=U) for k in ('ok', 'perm', 'exc')] + [dict(kind='temp', delay=d) for d in (U, 0, 1, 10, 60)]
+    cases = list(itertools.product(confs, states, ress, ('activity', 'change')))
+    if quick:
+        cases = rnd.sample(cases, 3000)
+    sim = Sim(wall_budget=0)
+    loop = sim.world.new_loop('client')
+    log = logging.getLogger('c11')
+    settings = kopf.OperatorSettings()
+    settings.execution.default_backoff = 60 if hasattr(settings, 'execution') else 60
+    defb = int(settings.execution.default_backoff)
+    res_ = references.Resource('example.com', 'v1', 'things', namespaced=True)
+    body = bodies.Body({'metadata': {'name': 'o', 'namespace': 'ns', 'uid': 'u'}, 'spec': {}})
+    recs = []
+    base = datetime.datetime(2030, 1, 1, tzinfo=datetime.timezone.utc)
+    modes = {'': None, 'temporary': kopf.ErrorsMode.TEMPORARY, 'permanent': kopf.ErrorsMode.PERMANENT, 'ignored': kopf.ErrorsMode.IGNORED}
+
+    async def one(c, s, r, kind):
+        called = {'n': 0}
+
+        async def fn(**_):
+            called['n'] += 1
+            if r['kind'] == 'temp':
+                raise kopf.TemporaryError('scripted', delay=None if r['delay'] == U else r['delay'])
+            if r['kind'] == 'perm': raise kopf.PermanentError('scripted')
+            if r['kind'] == 'exc': raise ValueError('scripted')
+        kw = dict(fn=fn, id='h', param=None, errors=modes[c['mode']], timeout=None if c['timeout'] == U else c['timeout'],
+                  retries=None if c['retries'] == U else c['retries'], backoff=None if c['backoff'] == U else c['backoff'])
+        if kind == 'activity':
+            handler = khandlers.ActivityHandler(activity=causes.Activity.STARTUP, _fallback=False, **kw)
+            cause = causes.ActivityCause(logger=log, activity=causes.Activity.STARTUP, settings=settings,
+                                         indices=indexing.OperatorIndexers().indices, memo=ephemera.Memo())
+        else:
+            handler = khandlers.ChangingHandler(selector=references.Selector('example.com', 'v1', 'things'), labels=None, annotations=None, when=None,
+                                                field=None, value=None, old=None, new=None, field_needs_change=False, initial=None, deleted=None,
+                                                requires_finalizer=None, reason=causes.Reason.CREATE, **kw)
+            cause = causes.ChangingCause(reason=causes.Reason.CREATE, initial=False, old=None, new={'spec': {}}, diff=diffs.diff(None, {'spec': {}}),
+                                         resource=res_, indices=indexing.OperatorIndexers().indices, logger=log, patch=patches.Patch(), body=body,
+                                         memo=ephemera.Memo())
+        now = base + datetime.timedelta(seconds=sim.now)
+        state = progression.HandlerState(active=True, basetime=base, started=now - datetime.timedelta(seconds=s['runtime']), retries=s['retries'])
+        o = await execution.execute_handler_once(settings=settings, handler=handler, cause=cause, state=state)
+        recs.append({'conf': dict(c, defbackoff=defb), 'state': s, 'res': r, 'kind': kind,
+                     'out': {'invoked': called['n'] > 0, 'final': bool(o.final), 'failed': bool(o.final and o.exception is not None),
+                             'delay': U if o.delay is None else int(o.delay)}})
+
+    async def all_():
+        for c, s, r, kind in cases:
+            await one(c, s, r, kind)
+    task = loop.spawn(all_())
+    sim.world.run_until(sim.now + 10, stop=lambda: task.done())
+    if not task.done() or task.exception():
+        raise RuntimeError(f'execution harness failed: {task.exception() if task.done() else "not finished"}')
+    sim.close()
+    return recs
+
+
 def run(ctx, rep) -> None:
+    from vf import records, tlc
+    r = tlc.run('MC_Execution', 'MC_Execution.cfg')
+    rep.add_tlc('MC_Execution', r)
+    if not r.ok:
+        rep.violation(f'reference laws of Execution violated: {r.violated}', files={'tlc.out': r.out[-100000:]})
+        return
+    recs = execution_records(ctx.quick, ctx.seed)
+    bad = records.judge('Rec_Execution', recs, rep=rep, shard=20000)
+    rep.evaluations += len(recs); rep.traces += len(recs)
+    for rec in recs:
+        if rec['conf']['timeout'] != -1 or rec['conf']['retries'] != -1 or rec['res']['kind'] != 'ok':
+            rep.nontrivial(rec)
+    for i, label in sorted(bad.items()):
+        rep.classified('', f'{label}: {recs[i]}', payload=recs[i])
     from vf import handling as H
     rep.rule = ('(A) TLC exhaustive on MC_Handling_{%s}; (B) seeded random scenarios of profile(s) %s on the real operator, '
                 'judged by Trace_Handling; non-trivial = the trace shows one of %s; distinct = by abstract trace'
